@@ -411,7 +411,7 @@ fn name_frames(s: &[u8]) -> Vec<(&'static str, Fam, Vec<u8>, bool)> {
 pub fn check_name(s: &str, packets: bool, all_fronts: bool) -> Result<bool, String> {
     let want = specpred::name_valid(s);
     if TopicName::is_invalid(s) == want {
-        return Err(format!("TopicName::is_invalid({:?}..) = {} but the MQTT rule says the name ({} bytes) is {}", s.chars().take(40).collect::<String>(), !want, s.len(), if want { "valid" } else { "invalid" }));
+        return Err(format!("TopicName::is_invalid({:?}..) = {} but the MQTT rule says the name ({} bytes) is {}", s.chars().take(40).collect::<String>(), want, s.len(), if want { "valid" } else { "invalid" }));
     }
     match TopicName::try_from(s.to_string()) {
         Ok(n) => {
